@@ -1,7 +1,7 @@
 (* C02 — every frame-to-frame assignment is the global optimum (Crocker-Grier).
    Only statements closed by [exact]; proofs live in Proofs/. *)
 From Coq Require Import ZArith NArith List Permutation.
-From TP Require Import Model.Assign Model.Link Model.LinkCheck
+From TP Require Import Model.Assign Model.Link Model.LinkCheck Model.Iterative Proofs.Iterative
      Proofs.BnB Proofs.Opt Proofs.Cands Proofs.Comps Proofs.Connected Proofs.Step Proofs.Labels Proofs.Monitor.
 Import ListNotations.
 Open Scope Z_scope.
@@ -64,6 +64,30 @@ Theorem C02_monitor_sound : forall m mem max_size pred st ds labs st',
                 is_opt (items_of m pred st ds) pairs.
 Proof. exact check_step_sound. Qed.
 Print Assumptions C02_monitor_sound.
+
+(* (6) The iterative solvers.  Model/Iterative.v models nonrecursive_link and the numba
+   kernel _numba_subnet_norecur as one explicit-stack machine with two switches (an
+   equal-cost leaf keeps / replaces the incumbent; after a leaf the rest of the last
+   level is continued / abandoned).  The machine always terminates within cost_full
+   iterations, is the defunctionalised recursive search, and returns a one-to-one
+   assignment of minimal total cost; with both switches off (nonrecursive_link) it
+   returns exactly the recursive solver's answer. *)
+Theorem C02_iterative_terminates : forall ties up fuel s,
+  (cost_stk (fst s) <= fuel)%nat -> mrun ties up fuel s = Some (unwind ties up s).
+Proof. exact mrun_terminates. Qed.
+Print Assumptions C02_iterative_terminates.
+
+Theorem C02_iterative_optimal : forall ties up srcs v a,
+  srcs <> [] -> nonneg srcs -> Forall sorted srcs ->
+  mrun ties up (cost_full srcs) (minit srcs) = Some (Some (v, a)) ->
+  completion srcs [] a /\ v = total a /\ (forall sigma, completion srcs [] sigma -> v <= total sigma).
+Proof. exact iterative_optimal. Qed.
+Print Assumptions C02_iterative_optimal.
+
+Theorem C02_nonrecursive_is_recursive : forall srcs,
+  srcs <> [] -> nonrecursive_link (cost_full srcs) srcs = Some (solve srcs).
+Proof. exact nonrecursive_is_recursive. Qed.
+Print Assumptions C02_nonrecursive_is_recursive.
 
 (* non-vacuity: a 3-source subnet whose optimum differs from greedy nearest-neighbour *)
 Example C02_example :
